@@ -472,7 +472,7 @@ def run(ctx: core.Ctx) -> None:
         table = {('none', 0): 3, ('none', 1): 1, ('one', 0): 1, ('one', 1): 1, ('all', 1): 1, ('all', 0): 0}
         # the LZMA code path does not depend on the lump layout except for the L4D2 header order
         inputs = [s for s in inputs if variant(s)[0] != 'all' or s[1] in ('v20', 'l4d2')]
-        deadline = ctx.t0 + 170
+        deadline = ctx.t0 + 600
     else:
         table = {('none', 0): None, ('none', 1): 3, ('one', 0): 3, ('one', 1): 3, ('all', 1): 2, ('all', 0): 1}
         deadline = ctx.t0 + 14 * 60
